@@ -7,7 +7,7 @@
    a process that vanishes, or is inaccessible, while the scan runs.  [links p] are the true
    links of an entry, [is_process p] = numeric directory, [inside D t = Some tl] = "t is D or
    D/tl", [uses D p] the (pid, kind, relative path) triples of p's links inside D. *)
-From LC Require Import Lib.Bytes Lib.Fields Model.InUse Cases.C19 Proofs.InUseP Proofs.C19P.
+From LC Require Import Lib.Bytes Lib.Lex Lib.Fields Model.InUse Cases.C19 Proofs.InUseP Proofs.C19P.
 Import C19.
 
 (* isLinkToLayer: a link target is attributed to layer K with relative path tl exactly when K is
@@ -95,6 +95,26 @@ Theorem C19_scan_fails_only_if : forall d orc ps, wf_layersdir d = true ->
     \/ (exists j e, orc j RExe = Some e /\ e <> ENOENT /\ e <> EACCES)).
 Proof. exact scan_fails_only_if. Qed.
 Print Assumptions C19_scan_fails_only_if.
+
+(* manage.DescribeUsers: one row per process id (never two), a row for every process id >= 1
+   among the entries; the row says "chroot" iff that process has a root entry, else "in layer
+   directory" iff it has a cwd entry, else "opened files"; the directory shown is that of a cwd
+   entry of the process; the files listed are its open entries, sorted *)
+Theorem C19_describe_rows : forall us r, In r (describe us) ->
+  let g := grp (usort us) (r_pid r) in
+  (1 <= r_pid r)%N /\ g <> []
+  /\ r_mode r = (if existsb (fun u => (u_kind u =? K_root)%N) g then 1
+                 else if existsb (fun u => (u_kind u =? K_cwd)%N) g then 2 else 3)%N
+  /\ r_cwd r = g_cwd g []
+  /\ r_files r = Lex.sort (g_files g).
+Proof. exact describe_rows. Qed.
+Print Assumptions C19_describe_rows.
+
+Theorem C19_describe_one_row_per_process : forall us,
+  NoDup (map r_pid (describe us))
+  /\ forall u, In u us -> (1 <= u_pid u)%N -> exists r, In r (describe us) /\ r_pid r = u_pid u.
+Proof. intros us. split; [apply describe_nodup|apply describe_complete]. Qed.
+Print Assumptions C19_describe_one_row_per_process.
 
 (* the per-case statement evaluated on implementation output by the correspondence check *)
 Theorem C19_holds : forall c, C19.wf c = true -> C19.kf c = 0%N -> C19.spec c (C19.model c) = true.
